@@ -87,9 +87,10 @@ Advance == rest' = Tail(rest)
 Dot == /\ Running /\ mode = "bare" /\ Head(rest) = "."
        /\ LET f == Finalize IN err' = f.e /\ segs' = f.s
        /\ buf' = <<>> /\ qseg' = FALSE /\ mode' = mode /\ Advance
-OpenQuote == /\ Running /\ mode = "bare" /\ Head(rest) = "\"" /\ buf = <<>> /\ ~qseg
+\* (as in the code, only a non-empty buffer forbids a quote: `""""' reopens the quotes of an empty quoted segment)
+OpenQuote == /\ Running /\ mode = "bare" /\ Head(rest) = "\"" /\ buf = <<>>
              /\ mode' = "quoted" /\ Advance /\ UNCHANGED <<buf, segs, qseg, err>>
-QuoteInside == /\ Running /\ mode = "bare" /\ Head(rest) = "\"" /\ (buf # <<>> \/ qseg)
+QuoteInside == /\ Running /\ mode = "bare" /\ Head(rest) = "\"" /\ buf # <<>>
                /\ err' = "quote_not_at_boundary" /\ Advance /\ UNCHANGED <<mode, buf, segs, qseg>>
 BareChar == /\ Running /\ mode = "bare" /\ Head(rest) \notin {".", "\""}
             /\ buf' = Append(buf, Head(rest)) /\ Advance /\ UNCHANGED <<mode, segs, qseg, err>>
@@ -129,7 +130,7 @@ Run(r, m, b, ss, q) ==
                 ELSE IF ~q /\ ~IsIdent(b) THEN [e |-> "not_identifier", s |-> ss]
                 ELSE Run(t, "bare", <<>>, Append(ss, b), FALSE)
             ELSE IF c = "\"" THEN
-                IF b # <<>> \/ q THEN [e |-> "quote_not_at_boundary", s |-> ss] ELSE Run(t, "quoted", b, ss, q)
+                IF b # <<>> THEN [e |-> "quote_not_at_boundary", s |-> ss] ELSE Run(t, "quoted", b, ss, q)
             ELSE Run(t, "bare", Append(b, c), ss, q)
         ELSE IF m = "quoted" THEN
             IF c = "\"" THEN Run(t, "bare", b, ss, TRUE)
